@@ -14,6 +14,7 @@ def main(argv=None) -> int:
     ap.add_argument("--setup", action="store_true")
     ap.add_argument("--selftest", action="store_true")
     ap.add_argument("--list", action="store_true")
+    ap.add_argument("--coverage", action="store_true")
     args = ap.parse_args(argv)
     seed = int(os.environ.get("VERIF_SEED", "0") or 0)
     os.environ.setdefault("PYTHONHASHSEED", "0")
@@ -22,6 +23,10 @@ def main(argv=None) -> int:
         from . import setup
 
         return setup.main()
+    if args.coverage:
+        from . import vacuity
+
+        return vacuity.main()
     if args.selftest:
         from . import selftest
 
